@@ -280,10 +280,32 @@ def sortKeyL : List PyVal → List PyVal
   | v :: r => sortKey v :: sortKeyL r
 end
 
+/-- `type(key).__qualname__` for the built-in key types (module `builtins` throughout) -/
+def typeNameOf : PyVal → Option Str
+  | .int Option.none _ _ => some [105, 110, 116]
+  | .float Option.none _ _ _ _ => some [102, 108, 111, 97, 116]
+  | .bool _ => some [98, 111, 111, 108]
+  | .str Option.none false _ => some [115, 116, 114]
+  | .str Option.none true _ => some [98, 121, 116, 101, 115]
+  | .seq 1 Option.none _ => some [116, 117, 112, 108, 101]
+  | .none => some [78, 111, 110, 101, 84, 121, 112, 101]
+  | .ellipsis => some [101, 108, 108, 105, 112, 115, 105, 115]
+  | _ => Option.none
+
+/-- `_AlwaysSortable.__lt__`: `<` on the values; where that raises TypeError (keys that cannot be compared), the names of the
+types are compared instead (after fix F23); anything else counts as not smaller, which leaves insertion order -/
+def keyLt (a b : PyVal) : Bool :=
+  match pyLt a b with
+  | some r => r
+  | Option.none =>
+    match typeNameOf a, typeNameOf b with
+    | some x, some y => lexLt x y
+    | _, _ => false
+
 /-- insertion by `<` on the keys, generic in what is carried along with each key -/
 def insertK {α} (x : PyVal × α) : List (PyVal × α) → List (PyVal × α)
   | [] => [x]
-  | y :: r => if pyLt (sortKey x.1) (sortKey y.1) == some true then x :: y :: r else y :: insertK x r
+  | y :: r => if keyLt (sortKey x.1) (sortKey y.1) then x :: y :: r else y :: insertK x r
 /-- stable insertion sort by `<` on the keys (Python's `sorted` is stable and uses only `<`) -/
 def sortK {α} (xs : List (PyVal × α)) : List (PyVal × α) := xs.reverse.foldl (fun acc x => insertK x acc) []
 
